@@ -179,10 +179,15 @@ fn tampers(tx: &Transaction, spent: &[TxOut], stride: usize) -> Vec<(String, Tra
                 t.input[i].asset_issuance.inflation_keys = CValue::Explicit(v + 1);
                 push("issuance-tokens+1".into(), t, spent.to_vec());
             }
-            // a different contract hash issues a different asset
-            let mut t = tx.clone();
-            t.input[i].asset_issuance.asset_entropy[0] ^= 1;
-            push("issuance-entropy-changed".into(), t, spent.to_vec());
+            // a different contract hash issues a different asset: visible to amount verification whenever an issuance amount
+            // is explicit (its asset id enters the balance). A fully blinded issuance amount is a bare commitment whose
+            // generator the verifier never re-derives (issuance range proofs are not part of verify_tx_amt_proofs), and the
+            // statement's tamper list does not include the entropy: not demanded there.
+            if inp.asset_issuance.amount.is_explicit() || inp.asset_issuance.inflation_keys.is_explicit() {
+                let mut t = tx.clone();
+                t.input[i].asset_issuance.asset_entropy[0] ^= 1;
+                push("issuance-entropy-changed".into(), t, spent.to_vec());
+            }
         }
     }
     let has_surjection = tx.output.iter().any(|o| o.asset.is_confidential());
@@ -261,7 +266,7 @@ pub struct Explicit {
     pub ins: Vec<(u8, u64)>,
     /// issuance on input 0: (amount, tokens), 0 = null
     pub iss: (u64, u64),
-    /// (asset 0=A,1=B,2=issued,3=token; value; script 0=spendable,1=OP_RETURN,2=empty)
+    /// (asset 0=A,1=B,2=issued,3=token; value; script 0=spendable,1=OP_RETURN,2=empty,3=10000 bytes,4=10001 bytes,5=9999 bytes)
     pub outs: Vec<(u8, u64, u8)>,
 }
 
@@ -311,7 +316,11 @@ fn build_explicit(m: &Explicit) -> (Transaction, Vec<TxOut>) {
             script_pubkey: match s {
                 0 => template_script(2, j as u8),
                 1 => Script::from(vec![0x6a, 0x01, j as u8]),
-                _ => Script::new(),
+                2 => Script::new(),
+                // around the maximum script size (consensus: larger than 10 000 bytes = provably unspendable)
+                3 => Script::from(vec![0x51; 10_000]),
+                4 => Script::from(vec![0x51; 10_001]),
+                _ => Script::from(vec![0x51; 9_999]),
             },
             witness: TxOutWitness::default(),
         })
@@ -335,8 +344,9 @@ fn reference_ok(m: &Explicit) -> bool {
     bal[3] += m.iss.1 as i128;
     for (a, v, s) in &m.outs {
         if *v == 0 {
-            if *s == 0 {
-                return false; // zero value on a spendable script
+            // provably unspendable: OP_RETURN first, empty (fee), or longer than the maximum script size of 10 000 bytes
+            if !matches!(*s, 1 | 2 | 4) {
+                return false; // zero value on a (possibly) spendable script
             }
             continue; // admissible, ignored
         }
@@ -353,7 +363,7 @@ fn check_explicit(r: &Report, m: &Explicit) {
     let exp = reference_ok(m);
     let case = || serde_json::to_value(m).unwrap();
     let zero_kind = || {
-        let z: Vec<&str> = m.outs.iter().filter(|o| o.1 == 0).map(|o| ["spendable", "op_return", "empty-script"][o.2 as usize]).collect();
+        let z: Vec<&str> = m.outs.iter().filter(|o| o.1 == 0).map(|o| ["spendable", "op_return", "empty-script", "10000-byte-script", "10001-byte-script", "9999-byte-script"][o.2 as usize % 6]).collect();
         if z.is_empty() { "no-zero-outputs".to_string() } else { format!("zero-value-on-{}", z.join("+")) }
     };
     match verify(&tx, &spent) {
@@ -421,6 +431,15 @@ fn explicit_models(thorough: bool) -> Vec<Explicit> {
                 }
             }
             }
+        }
+    }
+    // scripts around the maximum script size: zero and non-zero values on 9 999 / 10 000 / 10 001-byte scripts, alone and
+    // next to a balancing ordinary output
+    for s in 3..6u8 {
+        for v in 0..2u64 {
+            out.push(Explicit { reissue: false, ins: vec![(0, 2)], iss: (0, 0), outs: vec![(0, v, s), (0, 2 - v, 0)] });
+            out.push(Explicit { reissue: false, ins: vec![(0, 2)], iss: (0, 0), outs: vec![(0, 2, 2), (0, v, s)] });
+            out.push(Explicit { reissue: false, ins: vec![(1, 1), (0, 1)], iss: (1, 0), outs: vec![(1, 1, 0), (2, 1, 1), (0, 1 - v, 0), (0, v, s)] });
         }
     }
     out
@@ -512,13 +531,14 @@ pub fn run(r: &Report) {
          1..3 marked outputs in all positions) + 6 transactions with a blinded output on a provably unspendable script (OP_RETURN data / bare OP_RETURN / empty) \
          + 4 hand-built mixed ones (explicit asset with confidential value; zero-value data output with a confidential asset) \
          + 4 with two / three blinded outputs sharing ONE asset generator (same asset blinding factor) \
+         + 2 with an issuance whose inflation keys are blinded while its amount is explicit / absent \
          + the repository's real-network transaction; tampers at EVERY applicable position: explicit \
          amount +-1 (outputs, fee), asset swapped, value / asset commitment replaced by another valid one and by each other output's, made \
          explicit, each range / surjection proof removed, exchanged with each other output's, truncated, bit-flipped (every byte in thorough, \
          stride 64/16 in quick), script of each blinded output changed, issuance amount +-1 / removed / tokens+1 / entropy changed, each spent \
          output's value / asset changed, spent list shorter / longer (must be UtxoInputLenMismatch); (b) complete all-explicit product: 1..2 \
          inputs x assets {A,B} x values, issuance {none, amount, amount+tokens}, 0..2 outputs over assets {A,B,issued,token} x values 0..3 x \
-         scripts {spendable, OP_RETURN, empty} (+ 3-output subset) vs the reference predicate; (c) exact-value / exact-asset proofs under \
+         scripts {spendable, OP_RETURN, empty} (+ 3-output subset, + scripts of 9 999 / 10 000 / 10 001 bytes) vs the reference predicate; (c) exact-value / exact-asset proofs under \
          value+-1, other commitment, other generator, other asset, and genuine non-exact range proofs (hidden range above the claimed minimum). non-trivial = distinct verifying base transactions / balanced models",
     );
     // (a)
@@ -543,6 +563,12 @@ pub fn run(r: &Report) {
         r.machinery(format!("could not build the mixed-output base transactions ({} of 4)", mixed.len()));
     }
     mixed.par_iter().for_each(|(label, tx, spent)| check_tampers(r, label, tx, spent, stride));
+    let bk = blinded_keys_issuance_cases();
+    r.set_extra("blinded_keys_issuance_base_transactions", json!(bk.len()));
+    if bk.len() < 2 {
+        r.machinery(format!("could not build the blinded-inflation-keys base transactions ({} of 2)", bk.len()));
+    }
+    bk.par_iter().for_each(|(label, tx, spent)| check_tampers(r, label, tx, spent, stride));
     let same_gen = same_generator_cases(r.seed);
     r.set_extra("same_generator_base_transactions", json!(same_gen.len()));
     if same_gen.len() < 4 {
@@ -652,6 +678,51 @@ fn same_generator_cases(seed: u64) -> Vec<(String, Transaction, Vec<TxOut>)> {
                 debug_assert!(tx.output[0].asset == tx.output[1].asset);
                 out.push((format!("outputs-sharing-one-asset-generator/{}", if all_three { "three" } else { "two" }), tx, b.spent));
             }
+        }
+    }
+    out
+}
+
+/// Verifying transactions whose input carries an issuance with BLINDED inflation keys next to an explicit (or absent)
+/// issuance amount: the reissuance-token id is then the "unblinded issuance" one (the flag follows the AMOUNT only), and
+/// the token output balances the blinding factor of the keys commitment.
+fn blinded_keys_issuance_cases() -> Vec<(String, Transaction, Vec<TxOut>)> {
+    use elements::RangeProofMessage;
+    let s = secp();
+    let mut out = Vec::new();
+    for (k, amount) in [Some(50u64), None].into_iter().enumerate() {
+        let built = guard(|| -> Result<(Transaction, Vec<TxOut>), String> {
+            let tokens = 3u64;
+            let r_keys = ValueBlindingFactor::from_slice(gen::tweak(7970 + k as u64).as_ref()).unwrap();
+            let mut input = TxIn {
+                previous_output: OutPoint::new(Txid::from_byte_array(pat32(4)), 0),
+                is_pegin: false,
+                script_sig: Script::new(),
+                sequence: Sequence::MAX,
+                asset_issuance: AssetIssuance { asset_blinding_nonce: zkp::ZERO_TWEAK, asset_entropy: pat32(5), amount: amount.map(CValue::Explicit).unwrap_or(CValue::Null), inflation_keys: CValue::Explicit(tokens) },
+                witness: TxInWitness::default(),
+            };
+            // ids from the reference derivation, with the keys still explicit (the flag follows the amount, which is not blinded)
+            let (a, t) = crate::props::c11::ref_ids(&crate::oracle::model::from_txin(&input));
+            let (issued, token) = (AssetId::from_byte_array(a), AssetId::from_byte_array(t));
+            let zero_abf = AssetBlindingFactor::zero();
+            input.asset_issuance.inflation_keys = CValue::new_confidential_from_assetid(s, tokens, token, r_keys, zero_abf);
+            let spent = vec![TxOut { asset: Asset::Explicit(c04::asset_a()), value: CValue::Explicit(100), nonce: Nonce::Null, script_pubkey: template_script(2, 201), witness: TxOutWitness::default() }];
+            let plain = |asset: AssetId, v: u64, j: u8| TxOut { asset: Asset::Explicit(asset), value: CValue::Explicit(v), nonce: Nonce::Null, script_pubkey: template_script(2, j), witness: TxOutWitness::default() };
+            let mut outputs = vec![plain(c04::asset_a(), 98, 1)];
+            if let Some(v) = amount {
+                outputs.push(plain(issued, v, 2));
+            }
+            // the token output: explicit asset, confidential value whose blinding factor balances the keys commitment
+            let spk = template_script(3, 3);
+            let msg = RangeProofMessage::new(token, zero_abf);
+            let (v_conf, proof) = CValue::Explicit(tokens).blind_with_shared_secret(s, r_keys, gen::sk(7980 + k as u64), &spk, &msg).map_err(|e| format!("{:?}", e))?;
+            outputs.push(TxOut { asset: Asset::Explicit(token), value: v_conf, nonce: Nonce::Null, script_pubkey: spk, witness: TxOutWitness { surjection_proof: None, rangeproof: Some(Box::new(proof)) } });
+            outputs.push(TxOut::new_fee(2, c04::asset_a()));
+            Ok((Transaction { version: 2, lock_time: LockTime::ZERO, input: vec![input], output: outputs }, spent))
+        });
+        if let Ok(Ok((tx, spent))) = built {
+            out.push((format!("issuance-with-blinded-inflation-keys/{}", if amount.is_some() { "explicit-amount" } else { "no-amount" }), tx, spent));
         }
     }
     out
